@@ -11,4 +11,4 @@ func VerifReset() { ec = newErrorCorrection() }
 func VerifCacheState() [][]int { return utils.VerifRSCache(ec.rs) }
 
 // VerifRestore puts the cache back into a state read earlier with VerifCacheState.
-func VerifRestore(polys [][]int) { utils.VerifRSSetCache(ec.rs, polys) }
+func VerifRestore(polys [][]int) bool { return utils.VerifRSSetCache(ec.rs, polys) }
